@@ -371,7 +371,9 @@ class C14(runner.Check):
             'may_trigger, markup reads)/pickle and deepcopy restores) x histories of 6-14 triggers; a case is non-trivial when a state slot and a '
             'transition slot hold callbacks and the history executes at least one transition; every history is run on '
             'three machines: a twin nobody ever exported/observed, the original after all exports, the rebuilt one; '
-            'user triggers named like automatic ones (to_<state>) when auto_transitions is off; distinct = different '
+            'user triggers named like automatic ones (to_<state>) when auto_transitions is off; callback programs '
+            '(markup reads and dirty-setting modifications issued from inside state/transition callbacks while the '
+            'models move); Enum state definitions (plain, IntEnum, str mix-in, StrEnum); distinct = different '
             'description')
     trusted = ('hand-written model lean/Model/Markup.lean tied to /repo by equality of the encoded markup '
                '(export), of the rebuilt object state (import) and of the re-exported markup on every generated case',
@@ -510,6 +512,11 @@ class C14(runner.Check):
                 'transitions; with auto_transitions off, user triggers named like automatic ones are generated but '
                 'never with one source per state (the _is_auto_transition heuristic would then omit them); no state '
                 'is named after model_attribute',
+                'modifications issued from inside callbacks are generated only when no locally declared transition '
+                'exists (scoped callbacks modify the scope they run in) and never add states to a hierarchical machine '
+                'with auto_transitions on (nesting.py raises half way); Enum state definitions are leaf states and are '
+                'not combined with hierarchical diagram machines (diagram code fails to resolve the Enum path while '
+                'scoped)',
                 'remove_transition is exercised on triggers that exist at machine level; model states are reached '
                 'by triggers or add_model(initial=...), i.e. are resolved configurations',
                 'behavioural equality original vs rebuilt is sampled over random histories (callbacks by name, '
